@@ -17,11 +17,13 @@
 (* molecules: 3 elements x the full product 7^3.  Two atoms: over 14 atoms  *)
 (* (2 elements x 7 triples that put every value in every column); three     *)
 (* atoms: over 7 of them.  AsBuiltReader = TRUE replaces the property-block loop of the   *)
-(* SDF reader by the unbounded one found in the code (NoRaise is violated). *)
+(* SDF reader by the unbounded one found in the code (NoRaise is violated); *)
+(* AsBuiltWriter = TRUE writes SDF records the way the code did at the      *)
+(* pinned commit (WriterLayout and DeclarativeRead are violated).           *)
 (***************************************************************************)
 EXTENDS MolFormats, TLC
 
-CONSTANT AsBuiltReader
+CONSTANTS AsBuiltReader, AsBuiltWriter, Wide      \* Wide = TRUE (thorough tier): three-atom molecules over all 14 atoms
 
 D1(neg, ip, f) == [neg |-> neg, ip |-> ip, fr |-> <<f>>]
 D3(neg, ip, a, b, c) == [neg |-> neg, ip |-> ip, fr |-> <<a, b, c>>]
@@ -36,7 +38,7 @@ ASSUME \A k \in 1..7 : XyzRepresentable(XyzAlpha[k]) /\ WellFormedDec(XyzAlpha[k
 
 OneAtom(f) == {<<[z |-> z, c |-> <<Alpha(f)[i], Alpha(f)[j], Alpha(f)[k]>>]>> : z \in {1, 6, 17}, i \in 1..7, j \in 1..7, k \in 1..7}
 SmallAtoms(f) == {[z |-> z, c |-> Triple(f, k)] : z \in {1, 17}, k \in 1..7}
-Small3(f) == {[z |-> IF k % 2 = 0 THEN 1 ELSE 17, c |-> Triple(f, k)] : k \in 1..7}
+Small3(f) == IF Wide THEN SmallAtoms(f) ELSE {[z |-> IF k % 2 = 0 THEN 1 ELSE 17, c |-> Triple(f, k)] : k \in 1..7}
 AtomSeqs(f) == OneAtom(f) \cup {<<a, b>> : a \in SmallAtoms(f), b \in SmallAtoms(f)}
                \cup {<<a, b, c>> : a \in Small3(f), b \in Small3(f), c \in Small3(f)}
 Chain(n) == [i \in 1..(n - 1) |-> <<i, i + 1, 1>>]
@@ -77,7 +79,7 @@ PickFile == /\ phase = "pick" /\ kind' = "sdffile" /\ mols' \in FileSeqs /\ sty'
             /\ SdfStyleValid(mols', sty') /\ phase' = "picked"
             /\ UNCHANGED <<mol, text, rd>>
 Write == /\ phase = "picked"
-         /\ text' = CASE kind = "sdf" -> SdfRecord(Names[2], mol)
+         /\ text' = CASE kind = "sdf" -> (IF AsBuiltWriter THEN SdfRecordAsBuilt(Names[2], mol) ELSE SdfRecord(Names[2], mol))
                       [] kind = "xyz" -> XyzText(mol, Comment)
                       [] kind = "xyzspell" -> XyzSpelling(mol, Comment, sty)
                       [] OTHER -> SdfFile(Names, mols, sty)
